@@ -44,7 +44,9 @@ FUNCTIONS = [
 ASSUMPTIONS = [
     'buffer length <= the stated bound; command lines contain no LF before their final one (what '
     'StreamReader.readline delivers); literal continuation depth <= 2',
-    'A-codec: a symbolic charset name equals one of the modelled codec names or is unknown (LookupError)',
+    'A-codec: a symbolic charset name equals one of the modelled text codecs (ascii, utf-8, latin-1, utf-7, utf-16-be and '
+    'aliases), one of the registered non-text codecs (hex, base64, rot13, zlib, bz2, uu, quopri), contains NUL (ValueError) '
+    'or is unknown (LookupError)',
     'datetime.strptime on symbolic text either returns a datetime or raises ValueError (documented contract)',
 ]
 STUBS = ['datetime.strptime (nondeterministic: value or ValueError)',
@@ -262,6 +264,12 @@ def harnesses(tier):
             hs.append(Harness('line:%s+%d' % (prefix.decode(), k), _h_line(prefix, k),
                               {'prefix': prefix.decode(), 'symbolic_bytes': k},
                               replay='line', fuel=40 * (len(prefix) + k + 4), task_budget=120))
+    # a symbolic charset name followed by a string-valued key
+    for k in range(1, (3 if q else 6) + 1):
+        hs.append(Harness('line:a SEARCH CHARSET +%d+ SUBJECT x' % k,
+                          _h_line(b'a SEARCH CHARSET ', k, suffix=b' SUBJECT x\r\n'),
+                          {'prefix': 'a SEARCH CHARSET ', 'symbolic_bytes': k, 'suffix': ' SUBJECT x'},
+                          replay='line', fuel=2000, task_budget=120))
     # literal+ : arbitrary payload bytes (LF allowed inside the literal)
     for k in range(0, (2 if q else 3) + 1):
         hs.append(Harness('line:a SELECT {%d+}+payload' % k,
